@@ -361,6 +361,13 @@ func (fc *FnCtx) collectDebug() {
 			switch d := in.(type) {
 			case *ssa.DebugRef:
 				if id, ok := d.Expr.(*ast.Ident); ok {
+					if cell := cellOf(d, id.Name, b, i); cell != nil {
+						// the variable lives in a heap cell (it is captured by a closure or its address is taken): the
+						// value seen here is a snapshot, the variable itself is the cell's content
+						// (registered before the snapshot itself, which is kept for naming channels after their variable:
+						// lookupLocal prefers the earlier of two bindings at the same place)
+						fc.debugNames[id.Name] = append(fc.debugNames[id.Name], debugBinding{id.Name, cell, true, b, i})
+					}
 					fc.debugNames[id.Name] = append(fc.debugNames[id.Name], debugBinding{id.Name, d.X, d.IsAddr, b, i})
 				}
 			case *ssa.Phi:
@@ -374,6 +381,27 @@ func (fc *FnCtx) collectDebug() {
 			}
 		}
 	}
+}
+
+// cellOf: if the value a debug reference shows for variable name was just loaded from, or just stored into, the
+// variable's own cell (an Alloc commented with the name), return that cell.
+func cellOf(d *ssa.DebugRef, name string, b *ssa.BasicBlock, i int) *ssa.Alloc {
+	if d.IsAddr {
+		return nil
+	}
+	if u, ok := d.X.(*ssa.UnOp); ok && u.Op == token.MUL {
+		if a, ok := u.X.(*ssa.Alloc); ok && a.Comment == name {
+			return a
+		}
+	}
+	for k := i - 1; k >= 0 && k >= i-3; k-- {
+		if st, ok := b.Instrs[k].(*ssa.Store); ok && st.Val == d.X {
+			if a, ok := st.Addr.(*ssa.Alloc); ok && a.Comment == name {
+				return a
+			}
+		}
+	}
+	return nil
 }
 
 // lookupLocal finds the SSA value of a source-level local variable at (block b, before instruction idx).
@@ -471,9 +499,21 @@ func (fc *FnCtx) instr(b *ssa.BasicBlock, idx int, in ssa.Instruction) {
 		// the capacity is a fixed attribute of the channel
 		fc.declareFunOnce("chancap", "((_ BitVec 64)) (_ BitVec 64)")
 		if sz := fc.operand(x.Size); len(sz.L) == 1 {
-			fc.cur.assume(eq(app("chancap", ref), fc.convInt(sz.L[0], 64, true, 64)))
+			w, signed, _ := isIntType(sz.T)
+			if w == 0 {
+				w, signed = 64, true
+			}
+			sz64 := fc.convInt(sz.L[0], w, signed, 64)
+			// make(chan T, n) panics for a negative n (an absurdly large one is resource exhaustion, not modelled)
+			fc.oblige("bounds", "makechan", app("bvsle", bvLit(0, 64), sz64), x.Pos(), "makechan: size out of range")
+			fc.cur.assume(eq(app("chancap", ref), sz64))
 		}
 		name := fc.chanClass(x)
+		if fc.chanOnce(name) {
+			arr := fc.cur.get(chanClosedName, chanClosedSort)
+			fc.cur = fc.cur.derive()
+			fc.cur.set(chanClosedName, chanClosedSort, app("store", arr, ref, "false"))
+		}
 		fc.anchorArgs = nil
 		fc.anchorBefore("make "+name, x.Pos())
 		res := fc.vals[x]
